@@ -302,6 +302,8 @@ def run(res, ctx):
         fired = check_triggers(res, tables, pub_pl, scratch, spec)
         check_published(res, tables, pub_bl, scratch, drv)
         check_published_after_restricted_scan(res, pub_bl, scratch)
+        check_published_pairs(res, pub_bl, scratch)
+        check_registry_straight_after_import(res, pub_bl, scratch)
         check_naming(res, tables, fired, scratch, drv, thorough)
         check_get_url(res, tables, mgr, docs_utils, drv, snap)
     finally:
@@ -488,6 +490,67 @@ def check_published(res, tables, pub, scratch, drv):
                 mf = sorted((f[0], f[1], f[2], f[3]) for f in m["findings"] if f[0] in blids)
                 if rf != mf:
                     res.break_("correspondence:blacklist-scan", json.dumps({"program": prog, "real": rf, "model": mf}))
+
+
+def check_registry_straight_after_import(res, pub, scratch):
+    """In a FRESH interpreter, before any scanner or test set exists: every published id is known, every published name maps to its id, and a legacy profile
+    naming blacklist rules by NAME selects them (seeded change C18-m14 filled the by-id / by-name indices lazily, as a side effect of the first read of the rule
+    table: a config loaded first saw an empty registry)."""
+    import subprocess, sys
+    ids = [[p["id"], p.get("name")] for p in pub["rules"]]
+    prog = scratch.fresh("reg_probe.py", b"import pickle\nimport telnetlib\nassert x\npickle.loads(b)\n")
+    cfg = scratch.fresh("legacy.yaml", b"profiles:\n  byname:\n    include: [pickle, import_telnetlib, assert_used]\n  byid:\n    include: [B301, B401, B101]\n")
+    script = scratch.fresh("reg_probe_run.py", (
+        "import sys, json\nsys.path[:0] = %r\nfrom bandit.core import extension_loader as el\n"
+        "ids = json.loads(sys.argv[1])\nm = el.MANAGER\n"
+        "out = {'unknown_ids': [i for i, n in ids if not m.check_id(i)], 'unmapped_names': [[n, m.get_test_id(n)] for i, n in ids if n and m.get_test_id(n) != i]}\n"
+        "from bandit.core import config as b_config, manager as b_manager\n"
+        "for prof in ('byname', 'byid'):\n"
+        "    conf = b_config.BanditConfig(sys.argv[2])\n"
+        "    p = conf.get_option('profiles')[prof]\n"
+        "    mg = b_manager.BanditManager(conf, 'file', profile={'include': set(p.get('include', [])), 'exclude': set(p.get('exclude', []))})\n"
+        "    mg.discover_files([sys.argv[3]]); mg.run_tests()\n"
+        "    out[prof] = sorted(r.test_id for r in mg.results)\n"
+        "print(json.dumps(out))\n" % ([os.environ["PYTHONPATH"].split(os.pathsep)[0], C.REPO],)).encode())
+    pr = subprocess.run([sys.executable, script, json.dumps(ids), cfg, prog], capture_output=True, text=True, timeout=300)
+    res.case("registry-straight-after-import", True)
+    try:
+        out = json.loads(pr.stdout.strip().splitlines()[-1])
+    except Exception:
+        res.break_("registry-probe:subprocess-failed", pr.stderr[-400:])
+        return
+    if out["unknown_ids"] or out["unmapped_names"] or out["byname"] != out["byid"] or not out["byid"]:
+        res.violation("straight after import (no scanner built yet) the registry does not know its published rules, or a legacy profile naming rules by name selects other tests than by id",
+                      {"kind": "history", "in_a_fresh_interpreter": "extension_loader.MANAGER.check_id / get_test_id for every published rule, then BanditConfig(legacy profile) + scan",
+                       "unknown_ids": out["unknown_ids"][:10], "names_not_mapping_to_their_id": out["unmapped_names"][:10], "findings_profile_by_name": out["byname"], "findings_profile_by_id": out["byid"]})
+
+
+def check_published_pairs(res, pub, scratch):
+    """Two published rules triggered on ONE line: both are enforced (seeded change C18-m13 reported a check function once per line — and all blacklist rules
+    run through one function)."""
+    calls = [(p, q) for p in pub["rules"] if "Call" in p["kinds"] and "Import" not in p["kinds"] for q in p["qualnames"][:1]]
+    imports = [(p, q) for p in pub["rules"] if "Import" in p["kinds"] for q in p["qualnames"][:1]]
+    cases = []
+    for i, (p, q) in enumerate(calls):
+        p2, q2 = calls[(i + 7) % len(calls)]
+        if p2["id"] == p["id"]:
+            p2, q2 = calls[(i + 8) % len(calls)]
+        cases.append(((p, p2), f"v = ({q}(x), {q2}(y))\n", 1))
+        pi, qi = imports[i % len(imports)]
+        cases.append(((p, pi), f"import {qi}; v = {q}(x)\n", 1))
+    for i, (p, q) in enumerate(imports):
+        p2, q2 = imports[(i + 3) % len(imports)]
+        if p2["id"] != p["id"]:
+            cases.append(((p, p2), f"import {q}; import {q2}\n", 1))
+    out, errs = scan_batch(scratch, [c[1] for c in cases])
+    for ((pa, pb), prog, line), o in zip(cases, out):
+        got = {x["id"] for x in o["issues"] if x["line"] == line}
+        res.case("published-pair:%s+%s" % (pa["id"], pb["id"]), True)
+        res.count("published-pairs")
+        missing = [p_["id"] for p_ in (pa, pb) if p_["id"] not in got]
+        if missing:
+            res.violation("a published rule is not enforced when its trigger shares a line with another rule's trigger",
+                          {"kind": "program", "program": prog, "expect": {"ids": [pa["id"], pb["id"]], "line": line}, "not_reported": missing, "real_issues": o["issues"]})
 
 
 def check_published_after_restricted_scan(res, pub, scratch):
